@@ -65,6 +65,13 @@ def run_laws(chk, prog):
     chk.touch(fc)
     chk.ob("TWIN.q_conj", ORI + "::q_conj", "q_conj(q) == conjugate", lambda: eq(it.run(fc, [q]), conj_of(it, q), "q_conj"),
            module=ORI, function="q_conj", construct="q_conj == conjugate", line=fc.node.lineno)
+    def conj_rows():
+        out = to_obj(it.run(fc, [np.vstack([q, p])]))
+        if getattr(out, "shape", None) != (2, 4):
+            return (False, "q_conj of a 2-by-4 array has shape %s" % (getattr(out, "shape", None),), None)
+        return all_of(eq(out[0], conj_of(it, q), "q_conj(Q)[0]"), eq(out[1], conj_of(it, p), "q_conj(Q)[1]"))
+    chk.ob("TWIN.q_conj", ORI + "::q_conj::N-by-4", "q_conj(Q)[i] == conjugate of Q[i] for an N-by-4 array (documented input)", conj_rows,
+           module=ORI, function="q_conj", construct="q_conj rows == conjugate", line=fc.node.lineno)
     for op in ("__mul__", "__matmul__"):
         f = prog.func(QUAT + "::Quaternion." + op)
         chk.touch(f)
